@@ -62,16 +62,16 @@ def generate(ctx):
     if getattr(m, "zero_actions", None):
         ctx.cov["coverage_zero_actions"] = m.zero_actions
     seen = set()
-    pts, creds, seqs, prios, alias, uniq = [], [], [], [], [], []
+    pts, creds, seqs, prios, alias, uniq, issuer = [], [], [], [], [], [], []
     for v in m.printed:
-        if not isinstance(v, dict) or v.get("kind") not in ("P", "C", "S", "Q", "A", "U", "X", "XC"):
+        if not isinstance(v, dict) or v.get("kind") not in ("P", "C", "S", "Q", "A", "U", "X", "XC", "I"):
             continue
         k = json.dumps(v, sort_keys=True)
         if k in seen:
             continue
         seen.add(k)
-        {"P": pts, "C": creds, "S": seqs, "Q": prios, "A": alias, "U": uniq, "X": prios, "XC": prios}[v["kind"]].append(v)
-    for lst in (pts, creds, seqs, prios, alias, uniq):
+        {"P": pts, "C": creds, "S": seqs, "Q": prios, "A": alias, "U": uniq, "X": prios, "XC": prios, "I": issuer}[v["kind"]].append(v)
+    for lst in (pts, creds, seqs, prios, alias, uniq, issuer):
         lst.sort(key=lambda r: json.dumps(r, sort_keys=True))
     rnd = random.Random(ctx.seed)
     if quick:
@@ -85,7 +85,8 @@ def generate(ctx):
         # parameter triple, every perturbation
         creds = [c for c in creds if c["base"]["sd"] in (0, 1 + ctx.seed % 2)]
     # the sequences run first: nothing has been evaluated in the driver process before them
-    behs = witnesses() + seqs + alias + pts + creds + prios + uniq
+    behs = witnesses() + seqs + alias + pts + creds + prios + uniq + issuer
+    ctx.cov["issuer_cases"] = len(issuer)
     ctx.cov["alias_sequences"] = len(alias)
     ctx.cov["window_points"] = sum(1 for p_ in pts if p_["tag"].startswith("win_"))
     ctx.cov["unique_cases"] = len(uniq)
@@ -108,7 +109,7 @@ def judge(ctx, behs):
     vlib.write_ndjson(bpath, behs)
     trace = ctx.path("trace.ndjson")
     info = ctx.drive("sortition", trace, behaviours=bpath, timeout=1200)
-    ev = [e for e in vlib.read_ndjson(trace) if e.get("ev") in ("choose", "verify", "priority", "seq_issue", "seq_verify", "vrf_unique")]
+    ev = [e for e in vlib.read_ndjson(trace) if e.get("ev") in ("choose", "verify", "priority", "seq_issue", "seq_verify", "vrf_unique", "issuer")]
     mals = sorted({t["mal"] for e in ev if e["ev"] == "vrf_unique" for t in e["tries"]})
     ctx.cov["malleations_tried"] = mals
     ctx.cov["malleations_accepted"] = sorted({t["mal"] for e in ev if e["ev"] == "vrf_unique" for t in e["tries"] if t["accept"]})
@@ -193,6 +194,10 @@ def run(ctx):
         "priority over seats 0..j (j + 1 hashes), a priority credential with j = 0 is accepted (DESIGN section 9, interpretation note)",
         "priority argmax stage: seat indices 0, 1, 255, 256, 257, 511, 512, 513, 768, 1024 as the seat with the largest hash (searched outputs, "
         "1100 and 600 seats) and real credentials with the maximum on a multiple of 256; an argmax >= 65536 is out of reach of a search",
+        "issuer stage: credentials of every step kind (proposal, prevote, precommit, next-index, certificate) are drawn through the real "
+        "SortitionManager (verif_sortition_mgr.go accessors) over stub look-back functions that differ per look-back class, and verified by the "
+        "exported verifier functions with the own / the other class's seed; the step -> look-back type mapping is the voter's (vote(): "
+        "certificate -> LookBackCert, else LookBackPos)",
         "OutputUniquePerKeyMessage: the driver acts as a malicious key holder with a transcription of Evaluate; malleations tried: the prefix "
         "byte of the VRF point (0x00 0x01 0x02 0x03 0x05 0x06 0x07 0x44 0x84 0xff, challenge recomputed), the other y (control), s + N / t + N "
         "when they fit 32 bytes (practically never), and on the honest proof: flipped prefix, extra byte, truncation",
